@@ -1018,6 +1018,14 @@ def other_password(rng, pw):
     return pw + '!'
 
 
+def gen_iv(rng):
+    """16 random bytes; half of the time with a ':' inside (the packed format is split on colons)"""
+    iv = bytearray(rng.randbytes(16))
+    if rng.random() < 0.5:
+        iv[rng.randrange(16)] = 0x3a
+    return bytes(iv)
+
+
 def gen_rnd(rng, n=8):
     return [rng.randbytes(16).hex() for _ in range(n)]
 
@@ -1123,6 +1131,11 @@ def gen_machine_case(world, rng, flavour):
     if flavour == 'lifecycle':
         ops += [{'k': 'encrypt', 'pw': pw, 'ts': T(), 'rnd': R()}, {'k': 'lock', 'rnd': R()},
                 {'k': 'unlock', 'pw': other_password(rng, pw)}, {'k': 'unlock', 'pw': pw}]
+        if rng.random() < 0.35:
+            # an account added while the wallet is locked must be sealed by the next save as well
+            ops += [{'k': 'lock', 'rnd': R()}, {'k': 'add', 'spec': gen_spec(world, rng)}, {'k': 'save', 'ts': T(), 'rnd': R()},
+                    {'k': 'unlock', 'pw': pw}]
+            nacc += 1
         if rng.random() < 0.7:
             ops += [{'k': 'save', 'ts': T(), 'rnd': R()}, {'k': 'reload'}, {'k': 'unlock', 'pw': other_password(rng, pw)},
                     {'k': 'unlock', 'pw': pw}, {'k': 'save', 'ts': T(), 'rnd': R()}]
@@ -1201,7 +1214,7 @@ def gen_storage_case(rng, size=None):
 
 def gen_codec_case(rng, op):
     pw = gen_password(rng)
-    case = {'kind': 'codec', 'op': op, 'pw': pw, 'pw2': other_password(rng, pw), 'iv': rng.randbytes(16).hex()}
+    case = {'kind': 'codec', 'op': op, 'pw': pw, 'pw2': other_password(rng, pw), 'iv': gen_iv(rng).hex()}
     if op == 'aes':
         n = rng.choice([0, 1, 15, 16, 17, 31, 32, 33, 111, 200])
         case['text'] = ''.join(rng.choice('abcdefghijklmnopqrstuvwxyz é€😀') for _ in range(n))
@@ -1281,16 +1294,16 @@ def main(run):
             run.count('corpus')
             run_case(world, model, run, case)
         mark('corpus')
-        plan = [('lifecycle', S(30, 500)), ('walk', S(45, 900)), ('crash', S(8, 250)), ('tamper', S(45, 900)),
+        plan = [('lifecycle', S(30, 500)), ('walk', S(40, 900)), ('crash', S(8, 250)), ('tamper', S(45, 900)),
                 ('mixed', S(4, 50)), ('badseed', S(6, 60))]
         for flavour, n in plan:
             for _ in range(n):
                 run_case(world, model, run, gen_machine_case(world, rng, flavour))
             mark(flavour)
         # every crash point on a few sizes; on the others (quick tier) the trace and three sampled crash points
-        for size in S([100, 8193], [0, 1, 100, 8191, 8192, 8193, 70000, 200000]):
+        for size in S([100], [0, 1, 100, 8191, 8192, 8193, 70000, 200000]):
             run_case(world, model, run, gen_storage_case(rng, size))
-        for size in S([0, 8192, 70000], []):
+        for size in S([0, 8192, 8193, 70000], []):
             c = gen_storage_case(rng, size)
             c['sample_points'] = sorted(rng.sample(range(14), 3))
             run_case(world, model, run, c)
@@ -1312,7 +1325,7 @@ def main(run):
         for _ in range(S(5, 60)):
             c = gen_machine_case(world, rng, 'lifecycle')
             pw = gen_password(rng)
-            c.update(kind='pack', pw=pw, pw2=other_password(rng, pw), iv=rng.randbytes(16).hex(),
+            c.update(kind='pack', pw=pw, pw2=other_password(rng, pw), iv=gen_iv(rng).hex(),
                      malformed=['truncate', base64.b64encode(b's:8192:16:1:' + bytes(48)).hex()])
             if rng.random() < 0.7:
                 c['ops'] = [o for o in c['ops'] if o['k'] == 'add'] + [gen_pref(rng)]
